@@ -127,7 +127,12 @@ func runC18(t *simrt.Tape, o Opts) Outcome {
 					break
 				}
 			}
+			var rowIDs []string
 			for id := range w.Store.Rows {
+				rowIDs = append(rowIDs, id)
+			}
+			sortStrings(rowIDs)
+			for _, id := range rowIDs {
 				count(st.Oracle, "key-id-format")
 				okID := id == w.SKID()
 				for _, p := range h.parts {
